@@ -144,7 +144,57 @@ def gen_unit(rng, kind, n, k, wide=False):
             return [p, v]
 
 
-def gen_data(rng, kind, n, k, shape, wide=False):
+def _mink_l(u, v):
+    return -u[0] * v[0] + sum(a * b for a, b in zip(u[1:], v[1:]))
+
+
+def gen_unit_int(rng, kind, n, k):
+    """a unit with integer coordinates (exact integer input is valid input)"""
+    def hpoint():
+        while True:
+            p = [rng.randint(4, 7)] + [rng.randint(-2, 2) for _ in range(n)]
+            if _mink_l(p, p) < 0:
+                return p
+    if kind == "PPoly":
+        rows = []
+        while len(rows) < k:
+            v = [rng.randint(-3, 3) for _ in range(n + 1)]
+            if any(v):
+                rows.append(v)
+        return rows
+    if kind == "HPoly":
+        pts = []
+        while len(pts) < k:
+            p = hpoint()
+            if all(_mink_l([a - b for a, b in zip(p, q)], [a - b for a, b in zip(p, q)]) >= 1 for q in pts):
+                pts.append(p)
+        return pts
+    if kind == "HSeg":
+        while True:
+            p, q = hpoint(), hpoint()
+            d = [a - b for a, b in zip(p, q)]
+            if _mink_l(d, d) >= 1:
+                return [p, q]
+    p = hpoint()
+    while True:
+        v = [rng.randint(-3, 3) for _ in range(n + 1)]
+        c = _mink_l(v, p) / _mink_l(p, p)
+        t = [a - c * b for a, b in zip(v, p)]
+        if _mink_l(t, t) >= 0.5:
+            return [p, v]
+
+
+def gen_data(rng, kind, n, k, shape, wide=False, ints=False):
+    if ints:
+        def reci(sh):
+            if not sh:
+                return gen_unit_int(rng, kind, n, k)
+            return [reci(sh[1:]) for _ in range(sh[0])]
+        return reci(list(shape))
+    return _gen_data_float(rng, kind, n, k, shape, wide)
+
+
+def _gen_data_float(rng, kind, n, k, shape, wide=False):
     def rec(sh):
         if not sh:
             return gen_unit(rng, kind, n, k, wide)
@@ -186,9 +236,9 @@ def gen_transformation(rng, n):
 # --------------------------------------------------------------------------- world
 
 class Handle:
-    __slots__ = ("id", "real", "kind", "n", "data", "reach", "parent", "family", "cplx")
+    __slots__ = ("id", "real", "kind", "n", "data", "reach", "parent", "family", "cplx", "isint")
 
-    def __init__(self, hid, real, kind, n, data, reach, parent=None, family=None, cplx=False):
+    def __init__(self, hid, real, kind, n, data, reach, parent=None, family=None, cplx=False, isint=False):
         self.id = hid
         self.real = real
         self.kind = kind
@@ -198,6 +248,7 @@ class Handle:
         self.parent = parent
         self.family = family
         self.cplx = cplx
+        self.isint = isint
 
     @property
     def shape(self):
@@ -252,6 +303,7 @@ class Engine:
             "polyk": rng.choice([3, 4, 5]),
             "wide": rng.random() < 0.25,
             "scribble": rng.random() < 0.3,
+            "ints": rng.random() < 0.2,
         }
         w = {"mk": 14, "copy": 8, "stack": 6, "apply": 14, "reshape": 6, "flatten": 6, "index": 8,
              "setitem": 10, "combine": 7, "astype": 4, "setter": 5, "query": 22, "reject": 1, "drop": 3,
@@ -340,14 +392,15 @@ class Engine:
         n = cfg["n"]
         k = cfg["polyk"] if kind in ("PPoly", "HPoly") else 2
         shape = self._rand_shape(rng)
-        data = gen_data(rng, kind, n, k, shape, cfg.get("wide"))
+        ints = bool(cfg.get("ints")) and rng.random() < 0.5
+        data = gen_data(rng, kind, n, k, shape, cfg.get("wide"), ints)
         via = "array"
-        if kind != "PPoly" and rng.random() < 0.3:
+        if kind != "PPoly" and rng.random() < 0.3 and not ints:
             via = "klein"          # hyperbolic.Point(klein, model='klein') then cls(points)
         if kind in ("HSeg", "HTan") and rng.random() < 0.3:
             via = "two"            # cls(endpoint1, endpoint2)
         return {"op": "mk", "new": self._new_id(world), "kind": kind, "n": n, "data": data,
-                "layout": rng.choice(["C", "C", "F", "strided", "reversed"]), "via": via}
+                "layout": rng.choice(["C", "C", "F", "strided", "reversed"]), "via": via, "int": ints}
 
     def _gen_copy(self, rng, world):
         h = self._pick(rng, world)
@@ -421,13 +474,31 @@ class Engine:
         return key
 
     def _gen_index(self, rng, world):
+        if rng.random() < 0.25:
+            # a key that reaches into the vertex axis of a polygon: P[:3], P[::-1], Ps[:, 1:]
+            h = self._pick(rng, world, lambda x: x.kind in ("PPoly", "HPoly") and len(x.shape) <= 1 and x.k >= 3)
+            if h is not None:
+                k = h.k
+                r = rng.random()
+                if r < 0.35:
+                    vk = {"t": "slice", "a": None, "b": None, "s": -1}
+                elif r < 0.7:
+                    a = rng.randrange(0, k - 1)
+                    vk = {"t": "slice", "a": a, "b": rng.randrange(a + 2, k + 1), "s": 1}
+                else:
+                    vk = {"t": "slice", "a": 0, "b": k, "s": 2} if k >= 4 else {"t": "slice", "a": 1, "b": k, "s": 1}
+                if len(h.shape) == 0:
+                    key = vk
+                else:
+                    key = {"t": "tuple", "k": [{"t": "slice", "a": 0, "b": h.shape[0], "s": 1}, vk]}
+                return {"op": "index", "new": self._new_id(world), "h": h.id, "key": key, "vertex_axis": True}
         h = self._pick(rng, world, lambda x: len(x.shape) >= 1)
         if h is None:
             return None
         return {"op": "index", "new": self._new_id(world), "h": h.id, "key": self._key_for(rng, h)}
 
     def _gen_setitem(self, rng, world):
-        h = self._pick(rng, world, lambda x: len(x.shape) >= 1 and not x.cplx)
+        h = self._pick(rng, world, lambda x: len(x.shape) >= 1 and not x.cplx and not x.isint)
         if h is None:
             return None
         key = self._key_for(rng, h)
@@ -555,14 +626,14 @@ class Engine:
         world.last_relation = "%s:%s:%s" % (k if k != "query" else "query." + op["q"], kind, rel)
 
     # ---- buffers
-    def _buffer(self, world, bid, data, layout):
-        base = np.array(data, dtype=np.float64)
+    def _buffer(self, world, bid, data, layout, dtype=np.float64):
+        base = np.array(data, dtype=dtype)
         if layout == "F":
             arr = np.asfortranarray(base)
         elif layout == "strided":
-            big = np.zeros(base.shape[:-1] + (base.shape[-1] * 2,), dtype=np.float64)
+            big = np.zeros(base.shape[:-1] + (base.shape[-1] * 2,), dtype=dtype)
             big[..., ::2] = base
-            big[..., 1::2] = 7.25
+            big[..., 1::2] = 7
             arr = big[..., ::2]
         elif layout == "reversed" and base.ndim >= 1:
             arr = base[..., ::-1].copy()[..., ::-1]
@@ -589,8 +660,13 @@ class Engine:
     def _do_mk(self, world, op, vs):
         kind, n = op["kind"], int(op["n"])
         cls = self.classes[kind]
-        arr = self._buffer(world, "b:" + op["new"], op["data"], op["layout"])
+        isint = bool(op.get("int"))
+        arr = self._buffer(world, "b:" + op["new"], op["data"], op["layout"], np.int64 if isint else np.float64)
         via = op.get("via", "array")
+        if isint:
+            world.stats["probe.integer_dtype_object"] += 1
+            if via == "klein":
+                via = "array"
         try:
             if via == "klein" and kind != "PPoly" and kind != "HTan":
                 # Klein coordinates of the same points (a second caller buffer)
@@ -605,8 +681,10 @@ class Engine:
         except Exception as e:
             self._fail(vs, "mk.raised", "constructing %s from a valid array raised %r" % (kind, e))
             return "raised:" + type(e).__name__
-        self._register(world, op["new"], real, kind, n, world.buffers["b:" + op["new"]][1],
-                       reach=1.2 if kind != "PPoly" else 0.0)
+        h = self._register(world, op["new"], real, kind, n,
+                           np.array(world.buffers["b:" + op["new"]][1], dtype=np.float64),
+                           reach=(2.0 if isint else 1.2) if kind != "PPoly" else 0.0)
+        h.isint = isint
         return "ok"
 
     def _do_copy(self, world, op, vs):
@@ -616,7 +694,8 @@ class Engine:
         except Exception as e:
             self._fail(vs, "copy.raised", "copy-constructing %s raised %r" % (h.kind, e))
             return "raised:" + type(e).__name__
-        self._register(world, op["new"], real, h.kind, h.n, h.data.copy(), h.reach, h.id, h.family, h.cplx)
+        nh = self._register(world, op["new"], real, h.kind, h.n, h.data.copy(), h.reach, h.id, h.family, h.cplx)
+        nh.isint = h.isint
         return "ok"
 
     def _do_stack(self, world, op, vs):
@@ -629,8 +708,11 @@ class Engine:
         except Exception as e:
             self._fail(vs, "stack.raised", "stacking %d %s objects of equal shape raised %r" % (len(hs), h.kind, e))
             return "raised:" + type(e).__name__
-        self._register(world, op["new"], real, h.kind, h.n, np.stack([o.data for o in hs]),
-                       max(o.reach for o in hs), h.id, h.family, h.cplx)
+        nh = self._register(world, op["new"], real, h.kind, h.n, np.stack([o.data for o in hs]),
+                            max(o.reach for o in hs), h.id, h.family, h.cplx)
+        nh.isint = all(o.isint for o in hs)
+        if any(o.isint for o in hs) and not nh.isint:
+            world.stats["probe.stack_int_with_float"] += 1
         return "ok"
 
     def _do_apply(self, world, op, vs):
@@ -665,8 +747,9 @@ class Engine:
         except Exception as e:
             self._fail(vs, "reshape.raised", "reshape%r of %s with shape %r raised %r" % (shape, h.kind, h.shape, e))
             return "raised:" + type(e).__name__
-        self._register(world, op["new"], real, h.kind, h.n, h.data.reshape(shape + h.data.shape[-2:]),
-                       h.reach, h.id, h.family, h.cplx)
+        nh = self._register(world, op["new"], real, h.kind, h.n, h.data.reshape(shape + h.data.shape[-2:]),
+                            h.reach, h.id, h.family, h.cplx)
+        nh.isint = h.isint
         return "ok"
 
     def _do_flatten(self, world, op, vs):
@@ -676,13 +759,24 @@ class Engine:
         except Exception as e:
             self._fail(vs, "flatten.raised", "flatten_to_unit of %s raised %r" % (h.kind, e))
             return "raised:" + type(e).__name__
-        self._register(world, op["new"], real, h.kind, h.n, h.data.reshape((-1,) + h.data.shape[-2:]),
-                       h.reach, h.id, h.family, h.cplx)
+        nh = self._register(world, op["new"], real, h.kind, h.n, h.data.reshape((-1,) + h.data.shape[-2:]),
+                            h.reach, h.id, h.family, h.cplx)
+        nh.isint = h.isint
         return "ok"
 
     def _do_index(self, world, op, vs):
         h = world.handles[op["h"]]
-        if not h.shape or not _key_ok(op["key"], h.shape[0], h.shape):
+        if op.get("vertex_axis"):
+            if h.kind not in ("PPoly", "HPoly") or len(h.shape) > 1:
+                return "skipped:key"
+            try:
+                sub = h.data[_key(op["key"])]
+            except Exception:
+                return "skipped:key"
+            if sub.ndim != h.data.ndim or sub.shape[-2] < 2 or sub.shape[-1] != h.data.shape[-1] or sub.size == 0:
+                return "skipped:key"
+            world.stats["probe.index_into_vertex_axis"] += 1
+        elif not h.shape or not _key_ok(op["key"], h.shape[0], h.shape):
             return "skipped:key"
         key = _key(op["key"])
         sub = h.data[key]
@@ -693,13 +787,14 @@ class Engine:
         except Exception as e:
             self._fail(vs, "index.raised", "indexing %s of shape %r with %r raised %r" % (h.kind, h.shape, op["key"], e))
             return "raised:" + type(e).__name__
-        self._register(world, op["new"], real, h.kind, h.n, sub.copy(), h.reach, h.id, h.family, h.cplx)
+        nh = self._register(world, op["new"], real, h.kind, h.n, sub.copy(), h.reach, h.id, h.family, h.cplx)
+        nh.isint = h.isint
         return "ok"
 
     def _do_setitem(self, world, op, vs):
         h = world.handles[op["h"]]
-        if not h.shape or not _key_ok(op["key"], h.shape[0], h.shape) or h.cplx:
-            return "skipped:key"
+        if not h.shape or not _key_ok(op["key"], h.shape[0], h.shape) or h.cplx or h.isint:
+            return "skipped:key"        # (assigning float coordinates into an integer array truncates: C12's business)
         key = _key(op["key"])
         sub = h.data[key]
         if op.get("src"):
@@ -743,8 +838,9 @@ class Engine:
             self._fail(vs, "combine.none", "combine returned None")
             return "wrong"
         data = np.concatenate([o.data.reshape((-1,) + o.data.shape[-2:]) for o in hs], axis=0)
-        self._register(world, op["new"], real, h.kind, h.n, data, max(o.reach for o in hs),
-                       h.id, h.family, h.cplx)
+        nh = self._register(world, op["new"], real, h.kind, h.n, data, max(o.reach for o in hs),
+                            h.id, h.family, h.cplx)
+        nh.isint = all(o.isint for o in hs)
         return "ok"
 
     def _do_astype(self, world, op, vs):
@@ -782,6 +878,7 @@ class Engine:
             return "raised:" + type(e).__name__
         h.data = data
         h.reach = 1.2 if h.kind != "PPoly" else 0.0
+        h.isint = False
         return "ok"
 
     def _run_query(self, a, q, o, arg):
